@@ -285,6 +285,9 @@ def add_trashed(steps, tdir, name, path_value, date, kind='file', info_content=N
         steps.append(['f', p + '/member', 'm-' + tag, 0o644, 1_200_000_000 + len(steps)])
     elif kind == 'link':
         steps.append(['l', p, '/home/u/aux/linktarget-' + tag])
+    elif kind == 'link_loop':
+        # a trashed symlink that points to itself (every stat() through it gives ELOOP)
+        steps.append(['l', p, name])
     elif kind == 'link_absdir':
         # a trashed symlink whose (absolute) target is an existing directory that was never trashed
         steps.append(['d', '/home/u/aux/livedir-' + tag, 0o755])
